@@ -7,11 +7,13 @@ namespace KlogV.RefineLemmas
 
 def pend (st : PState) : Option (EntryVal × List (List Char)) := st.pending.map (fun p => (p.val, p.summary))
 
-/-- `b` is `a` with `E` already read before (`H`: an open range among them) -/
+/-- `b` is `a` with `E` already read before (`H`: an open range among them).  The entries and the
+open-range flag are only related as long as there is no error: after a malformed continuation line
+the pending entry is committed on both sides, with different outcomes when `H` holds. -/
 structure Sim (E : List Entry) (H : Bool) (a b : PState) : Prop where
-  entries : b.entries = E ++ a.entries
+  entries : a.errs = [] → b.entries = E ++ a.entries
   errs : a.errs = [] ↔ b.errs = []
-  hasOpen : b.hasOpen = (H || a.hasOpen)
+  hasOpen : a.errs = [] → b.hasOpen = (H || a.hasOpen)
   stopped : a.stopped = b.stopped
   panicked : a.panicked = b.panicked
   pending : pend a = pend b
@@ -21,6 +23,24 @@ theorem pend_none (a : PState) : pend a = none ↔ a.pending = none := by
 
 theorem commit_of_none (a : PState) (h : a.pending = none) : a.commit = a := by
   unfold PState.commit; rw [h]
+
+theorem commit_pend_none (st : PState) : pend st.commit = none := by
+  rw [pend_none]
+  unfold PState.commit
+  split
+  · assumption
+  · split <;> rfl
+
+/-- once there is an error, the commit keeps the (then weak) relation -/
+theorem commit_sim_err (E : List Entry) (H : Bool) (a b : PState) (h : Sim E H a b)
+    (hae : a.errs ≠ []) : Sim E H a.commit b.commit := by
+  have hbe : b.errs ≠ [] := fun e => hae (h.errs.mpr e)
+  have hac := commit_errs_mono a hae
+  have hbc := commit_errs_mono b hbe
+  refine ⟨fun e => absurd e hac, ⟨fun e => absurd e hac, fun e => absurd e hbc⟩, fun e => absurd e hac, ?_, ?_, ?_⟩
+  · rw [commit_stopped, commit_stopped]; exact h.stopped
+  · rw [commit_panicked, commit_panicked]; exact h.panicked
+  · rw [commit_pend_none, commit_pend_none]
 
 theorem commit_sim (E : List Entry) (H : Bool) (a b : PState) (h : Sim E H a b)
     (hc : H = false ∨ a.pending = none) : Sim E H a.commit b.commit := by
@@ -42,15 +62,17 @@ theorem commit_sim (E : List Entry) (H : Bool) (a b : PState) (h : Sim E H a b)
       have hpq := h.pending
       simp only [pend, ha, hb, Option.map_some, Option.some.injEq, Prod.mk.injEq] at hpq
       obtain ⟨hv, hs⟩ := hpq
-      have hopen : b.hasOpen = a.hasOpen := by rw [h.hasOpen, hH]; rfl
-      unfold PState.commit
-      simp only [ha, hb]
-      rw [← hv, hopen]
-      split
-      · exact ⟨h.entries, by simp, by simp [hH], h.stopped, h.panicked, rfl⟩
-      · refine ⟨?_, h.errs, ?_, h.stopped, h.panicked, rfl⟩
-        · simp [h.entries, hs]
-        · simp [hH]
+      by_cases hae : a.errs = []
+      · have hopen : b.hasOpen = a.hasOpen := by rw [h.hasOpen hae, hH]; rfl
+        unfold PState.commit
+        simp only [ha, hb]
+        rw [← hv, hopen]
+        split
+        · exact ⟨by simp, by simp, by simp, h.stopped, h.panicked, rfl⟩
+        · refine ⟨fun _ => ?_, h.errs, fun _ => ?_, h.stopped, h.panicked, rfl⟩
+          · simp [h.entries hae, hs]
+          · simp [hH]
+      · exact commit_sim_err E H a b h hae
 
 theorem entryStepB_sim (style : List Char) (E : List Entry) (H : Bool) (a b : PState) (nr nr' : Nat)
     (l : List Char) (h : Sim E H a b) :
@@ -60,9 +82,9 @@ theorem entryStepB_sim (style : List Char) (E : List Entry) (H : Bool) (a b : PS
   repeat' split
   all_goals
     first
-    | exact ⟨h.entries, by simp, h.hasOpen, rfl, h.panicked, h.pending⟩
+    | exact ⟨by simp, by simp, by simp, rfl, h.panicked, h.pending⟩
     | exact ⟨h.entries, h.errs, h.hasOpen, h.stopped, rfl, h.pending⟩
-    | exact ⟨h.entries, by simp, h.hasOpen, h.stopped, h.panicked, h.pending⟩
+    | exact ⟨by simp, by simp, by simp, h.stopped, h.panicked, h.pending⟩
     | exact ⟨h.entries, h.errs, h.hasOpen, h.stopped, h.panicked, rfl⟩
     | simp_all
 
@@ -94,7 +116,16 @@ theorem entryStep_sim (style : List Char) (E : List Entry) (H : Bool) (a b : PSt
           split
           · refine ⟨h.entries, h.errs, h.hasOpen, rfl, rfl, ?_⟩
             simp [pend, hv, hs]
-          · exact ⟨h.entries, by simp, h.hasOpen, rfl, rfl, rfl⟩
+          · have hc1 : (a.commit.errs ++ [(⟨nr, 0, l.length, .malformedSummary⟩ : Err)]) ≠ [] := by simp
+            have hc2 : (b.commit.errs ++ [(⟨nr', 0, l.length, .malformedSummary⟩ : Err)]) ≠ [] := by simp
+            refine ⟨fun e => absurd e hc1, ⟨fun e => absurd e hc1, fun e => absurd e hc2⟩,
+              fun e => absurd e hc1, ?_, ?_, ?_⟩
+            · show a.commit.stopped = b.commit.stopped
+              rw [commit_stopped, commit_stopped]; exact h.stopped
+            · show a.commit.panicked = b.commit.panicked
+              rw [commit_panicked, commit_panicked]; exact h.panicked
+            · show pend a.commit = pend b.commit
+              rw [commit_pend_none, commit_pend_none]
         | false =>
           have hH : H = false := by
             rcases hc with h0 | h0 | h0
@@ -124,7 +155,7 @@ theorem stepsGo_sim (style : List Char) (E : List Entry) (H : Bool) (ls : List (
 theorem entriesGo_indep (style : List Char) (ls : List (List Char)) (nr nr' : Nat) :
     Sim [] false (entriesGo style {} nr ls) (entriesGo style {} nr' ls) := by
   rw [entriesGo_eq, entriesGo_eq]
-  have h0 : Sim [] false ({} : PState) {} := ⟨rfl, Iff.rfl, rfl, rfl, rfl, rfl⟩
+  have h0 : Sim [] false ({} : PState) {} := ⟨fun _ => rfl, Iff.rfl, fun _ => rfl, rfl, rfl, rfl⟩
   exact commit_sim _ _ _ _ (stepsGo_sim style [] false ls (Or.inl rfl) _ _ nr nr' h0) (Or.inl rfl)
 
 /-- the result of `parseRecord`, as far as it does not depend on the offset -/
@@ -177,7 +208,7 @@ theorem parseRecord_indep (o o' : Nat) (lines : List (List Char)) (r : Record)
           have e1' := hiff.mpr e1
           have e2' := s2.mp e2
           have e3' := hsim.errs.mp e3
-          have e4 : B.entries = A.entries := by simpa using hsim.entries
+          have e4 : B.entries = A.entries := by simpa using hsim.entries e3
           simp only [e1', e2', e3', e4, List.append_nil]
           exact congrArg _ h
         · cases h
